@@ -76,11 +76,19 @@ class RealDynamics:
             nxt = transition_with_copy(self.tf, st, action, rng=np.random.default_rng(0))
             return [(nxt, bool(self.xf(st, action, nxt)))]
         outs, seen = [], set()
-        for nxt, _ in rngtools.enumerate_outcomes(lambda rng: transition_with_copy(self.tf, st, action, rng=rng), limit=5000):
+
+        def add(nxt):
             k = json.dumps(proj.state_to_json(nxt), sort_keys=True)
             if k not in seen:
                 seen.add(k)
                 outs.append((nxt, bool(self.xf(st, action, nxt))))
+        try:
+            for nxt, _ in rngtools.enumerate_outcomes(lambda rng: transition_with_copy(self.tf, st, action, rng=rng), limit=5000):
+                add(nxt)
+        except rngtools.NotEnumerable:
+            # the code draws in a way that cannot be enumerated (or has too many outcomes): sample
+            for sd in range(64):
+                add(transition_with_copy(self.tf, st, action, rng=np.random.default_rng(sd)))
         return outs
 
     def is_goal(self, st):
